@@ -1,6 +1,6 @@
 """Shared GDSII codec rule implementations for C01, C02, C03 (E4 tables + E2 guarded walks)."""
 import json, os, re
-from analysis.mir import Body, callee_name, callee_id, op_const
+from analysis.mir import Body, callee_name, callee_id, op_const, op_place
 from analysis import gdscodec as gc, ordering as od, flow
 from analysis.walk import Walker, strip_calls, field_chain
 
@@ -424,27 +424,52 @@ def rule_strans_bits_reader(ctx, g, rid):
         for nm, (byte, mask) in ORACLE["strans_bits"].items():
             i = fnames.index(nm)
             term = t[2][i]
-            # evaluate for all 256 values of the relevant byte and 0 for the other
+            # evaluate on values: every value of the manual's byte that matters, against several fillings of the other byte
             good = True
-            for val in (0, mask, 0xFF, 0xFF ^ mask, 1, 0x80, 0x04, 0x02):
-                got = eval_param_expr(term, {2 + byte: val, 2 + (1 - byte): 0})
-                got2 = eval_param_expr(term, {2 + byte: val, 2 + (1 - byte): 0xFF})
-                if got is None or got != int(bool(val & mask)) or got2 != got:
-                    good = False
+            for val in (0, mask, 0xFF, 0xFF ^ mask, 1, 0x80, 0x04, 0x02, 0x06, 0x7F):
+                for other in (0, 0xFF, 0x80, 0x04, 0x02, 0x79):
+                    got = eval_param_expr(term, {2 + byte: val, 2 + (1 - byte): other})
+                    if got is None or got != int(bool(val & mask)):
+                        good = False
             if good:
                 ctx.ok(rid, "%s/%s" % (f.short, nm), "byte%d & 0x%02X" % (byte, mask))
             else:
                 ctx.violation(rid, "%s/%s" % (f.short, nm), "GdsStrans.%s is not decoded as byte%d & 0x%02X != 0" % (nm, byte, mask), g.site(f))
 
 
+def _width(cs):
+    m = re.search(r"_([ui])(8|16|32|64|128|size)$", cs or "")
+    if not m:
+        return None
+    return 64 if m.group(2) == "size" else int(m.group(2))
+
+
 def eval_param_expr(x, env):
+    """value of a walker term over the byte parameters in env (unsigned arithmetic; None = not evaluable)"""
     if x[0] == "const":
         return x[2]
     if x[0] == "param":
         return env.get(x[1])
+    if x[0] == "call":
+        n = x[1]
+        if re.search(r"::from_(be|le)_bytes$", n) and x[2] and x[2][0][0] == "agg" and x[2][0][1] == "array":
+            vals = [eval_param_expr(a, env) for a in x[2][0][2]]
+            if any(v is None for v in vals):
+                return None
+            if n.endswith("from_le_bytes"):
+                vals = vals[::-1]
+            r = 0
+            for v in vals:
+                r = (r << 8) | (v & 0xFF)
+            return r
+        if re.search(r"::(from|into)$", n) and x[2]:
+            return eval_param_expr(x[2][0], env)
+        return None
     if x[0] == "op":
         if x[1].startswith("cast:"):
-            return eval_param_expr(x[2][0], env)
+            v = eval_param_expr(x[2][0], env)
+            w = _width("_" + x[1].split(":", 1)[1])
+            return v if v is None or w is None else v & ((1 << w) - 1)
         vals = [eval_param_expr(a, env) for a in x[2]]
         if any(v is None for v in vals):
             return None
@@ -452,6 +477,8 @@ def eval_param_expr(x, env):
             return vals[0] & vals[1]
         if x[1] == "BitOr":
             return vals[0] | vals[1]
+        if x[1] == "BitXor":
+            return vals[0] ^ vals[1]
         if x[1] == "Ne":
             return int(vals[0] != vals[1])
         if x[1] == "Eq":
@@ -459,9 +486,15 @@ def eval_param_expr(x, env):
         if x[1] == "Shr":
             return vals[0] >> vals[1]
         if x[1] == "Shl":
-            return (vals[0] << vals[1]) & 0xFF
+            # width of the left operand when it is a typed constant; bytes otherwise
+            w = _width(x[2][0][1]) if x[2][0][0] == "const" else None
+            return (vals[0] << vals[1]) & ((1 << (w or 64)) - 1) if (w or x[2][0][0] != "param") else (vals[0] << vals[1]) & 0xFF
         if x[1] == "Gt":
             return int(vals[0] > vals[1])
+        if x[1] == "Ge":
+            return int(vals[0] >= vals[1])
+        if x[1] == "Lt":
+            return int(vals[0] < vals[1])
         if x[1] == "Not":
             return int(not vals[0])
     return None
@@ -908,8 +941,10 @@ def rule_reader_placement(ctx, g, rid):
                 d = fl.deps(f.id, 0, tuple(q))
                 ps = {s[1] for s in d if s[0] == "param" and s[1] >= 2}
                 wantp = {2} if fpath[0] == "reflected" else {3}
-                if ps == wantp:
-                    ctx.ok(rid, inst, "<- STRANS byte %d" % (min(ps) - 2))
+                # the manual's byte must feed the flag; a decoder that first joins both bytes into one bit array depends on
+                # both — which bit is tested is decided by the bit-level rule, evaluated on values
+                if wantp <= ps <= {2, 3}:
+                    ctx.ok(rid, inst, "<- STRANS byte(s) %s" % sorted(p - 2 for p in ps))
                 else:
                     ctx.violation(rid, inst, "%s: %s is decoded from STRANS byte(s) %s, manual says byte %d" % (f.short, inst, sorted(p - 2 for p in ps), min(wantp) - 2), g.site(f), inst)
                 continue
@@ -1066,7 +1101,11 @@ def rule_field_diagonal(ctx, g, rid):
             if unk:
                 ctx.note(rid, "%s: analysis budget exhausted" % inst)
                 continue
-            if wkeys <= got and not (got - wkeys):
+            same_record = {k.split(".")[0] for k in wkeys}
+            if wkeys <= got and chain[-1] in ORACLE["strans_bits"] and all(k.split(".")[0] in same_record for k in got - wkeys):
+                # packed flag word: dependence on the neighbouring byte of the same record is a bit-level question (bit rules)
+                ctx.ok(rid, inst, "-> %s -> (bit positions decided by the STRANS bit rules)" % sorted(wkeys))
+            elif wkeys <= got and not (got - wkeys):
                 ctx.ok(rid, inst, "-> %s ->" % sorted(wkeys))
             elif not (wkeys <= got):
                 ctx.violation(rid, inst, "field %s is written into %s but rebuilt from %s" % (inst, sorted(wkeys), sorted(got) or "nothing"), g.site(pf), inst)
@@ -1200,3 +1239,54 @@ def rule_read_primitives(ctx, g, rid):
                 ctx.ok(rid, f.short, "one trailing NUL test")
             else:
                 ctx.violation(rid, f.short, "string decoding strips %s trailing NULs%s (the format pads with exactly one)" % (strips, " in a loop" if inloop else ""), g.site(f))
+
+
+INEXACT_READS = re.compile(r"std::io::Read::(read|read_vectored|read_buf)$|std::io::BufRead::fill_buf$|<.* as std::io::Read>::(read|read_vectored|read_buf)$")
+EXACT_READS = re.compile(r"std::io::Read::read_exact$|byteorder::ReadBytesExt::read_|<.* as std::io::Read>::read_exact$")
+
+
+def rule_exact_reads(ctx, g, rid):
+    """Short reads: `Read::read` may deliver fewer bytes than asked (at end of input: zero) and leaves the rest of the
+    buffer as it was; a decoder that ignores the count turns a truncated stream into well-formed zeros (00 04 04 00 is ENDLIB)."""
+    ctx.rule(rid, "every byte the reader decodes was delivered by an exact read (read_exact / byteorder primitives): no `Read::read`-style call whose byte count is ignored")
+    F = ctx.F
+    n_exact = 0
+    for f in F.fns.values():
+        if not f.id.startswith("gds21::read::"):
+            continue
+        b = Body(f)
+        for bi, t in b.calls():
+            n = callee_name(t) or ""
+            if EXACT_READS.search(n):
+                n_exact += 1
+            if INEXACT_READS.search(n):
+                key = "%s/%s" % (f.short, n.split("::")[-1])
+                # is the Ok(count) payload ever looked at?
+                dest = t["dest"]["l"]
+                used = False
+                for blk in b.blocks:
+                    for st in blk["st"]:
+                        if st["k"] != "assign":
+                            continue
+                        rv = st["rv"]
+                        for k in ("o", "l", "r"):
+                            q = op_place(rv[k]) if k in rv and isinstance(rv[k], dict) else None
+                            if q is None or q["l"] != dest:
+                                continue
+                            dcs = [e for e in q["p"] if isinstance(e, dict) and "dc" in e]
+                            if not q["p"] or any(str(e.get("n", e["dc"])) in ("Ok", "0") for e in dcs):
+                                used = True  # the Ok payload (or the whole result) is read
+                    u = blk["term"]
+                    if u["k"] == "call" and u is not t:
+                        for a in u["args"]:
+                            q = op_place(a)
+                            if q is not None and q["l"] == dest:
+                                used = True  # handed to `?` / unwrap / map ...: the count reaches the caller's code
+                if used:
+                    ctx.note(rid, "%s calls %s and reads the returned count (not decided further)" % (f.short, n))
+                    ctx.ok(rid, key, "count inspected")
+                else:
+                    ctx.violation(rid, key, "%s fills its buffer with %s and ignores the byte count: at end of input the missing bytes decode as zeros, so a truncated stream can be accepted (00 04 04 00 is a well-formed ENDLIB)" % (f.short, n.split("::", 2)[-1]), b.site(bi), key)
+    ctx.floor(rid, "exact_read_calls", n_exact, 4)
+    if n_exact:
+        ctx.ok(rid, "exact-read-calls", "%d exact read calls" % n_exact)
